@@ -213,19 +213,23 @@ func c08Inputs(seed int64, thorough bool) (files []c08Input, profiles []c08Input
 		files = append(files, c08Input{sd.Name, sd.Bytes, sd.Truth.Format, nil})
 		cuts := map[int]bool{}
 		for _, f := range sd.Truth.Fields {
-			for _, c := range []int{f.Off - 1, f.Off, f.Off + 1, f.Off + f.Len - 1, f.Off + f.Len, f.Off + f.Len + 1} {
+			// around the start of every structure (the five bytes before it are the end of the
+			// previous one: a PNG chunk's CRC, a pad byte) and around its end
+			for _, c := range []int{f.Off - 5, f.Off - 4, f.Off - 3, f.Off - 2, f.Off - 1, f.Off, f.Off + 1, f.Off + f.Len - 1, f.Off + f.Len, f.Off + f.Len + 1} {
 				if c > 0 && c < len(sd.Bytes) {
 					cuts[c] = true
 				}
 			}
 		}
-		k := 0
+		for d := 1; d <= 6 && d < len(sd.Bytes); d++ {
+			cuts[len(sd.Bytes)-d] = true
+		}
+		var order []int
 		for c := range cuts {
-			if !thorough && k%3 != 0 {
-				k++
-				continue
-			}
-			k++
+			order = append(order, c)
+		}
+		sortInts(order)
+		for _, c := range order {
 			files = append(files, c08Input{fmt.Sprintf("%s[:%d]", sd.Name, c), sd.Bytes[:c], sd.Truth.Format, nil})
 		}
 	}
